@@ -551,6 +551,7 @@ def _make_mat(models, it, reg, ty, name, fresh):
         arr = z3.Const(name + "!arr", z3.ArraySort(INT, REAL)) if not fresh else it.run.fresh(z3.ArraySort(INT, REAL), name + "!arr")
         n = z3.Int(name + "!len") if not fresh else it.run.fresh("Int", name + "!len")
         it.run.assume(n >= 0)
+        it.run.__dict__.setdefault("size_terms", []).append(n)
         return it.run.alloc(HSeq(arr, z3.IntVal(0), n, "Real", nd=True))
     return NotImplemented
 
@@ -595,3 +596,27 @@ def _spec_dotv(self, e, fr):
 
 X.Interp.spec_vabs = _spec_vabs
 X.Interp.spec_dotv = _spec_dotv
+
+
+def _np_minimum(models, it, args, kw, fr, node):
+    a, b = args
+    oa, ob = _seq_of(it, a, node), _seq_of(it, b, node)
+    it.run.oblige("vector-lengths@%s" % getattr(node, "lineno", "?"), (oa.hi - oa.lo) == (ob.hi - ob.lo), kind="safety")
+    i = z3.Int("i!vmin")
+    ea, eb = oa.arr[oa.lo + i], ob.arr[ob.lo + i]
+    if ea.sort() == INT:
+        ea = z3.ToReal(ea)
+    if eb.sort() == INT:
+        eb = z3.ToReal(eb)
+    models.note(it, "exact:np.minimum of two 1-D sequences (element-wise, as a lambda array)")
+    return it.run.alloc(HSeq(z3.Lambda([i], z3.If(ea <= eb, ea, eb)), z3.IntVal(0), z3.simplify(oa.hi - oa.lo), "Real", nd=True))
+
+
+_arrays.EXTRA_EXT["numpy.minimum"] = _np_minimum
+
+
+def _spec_vmin2(self, e, fr):
+    return _np_minimum(self.ctx.models, self, [self.ev(e.args[0], fr), self.ev(e.args[1], fr)], {}, fr, e)
+
+
+X.Interp.spec_vmin2 = _spec_vmin2
